@@ -467,7 +467,9 @@ class TraitType(BaseTraitHandler):
                 trait.post_setattr = post_setattr
                 trait.is_mapped = self.is_mapped
 
-            comparison_mode = metadata.pop("comparison_mode", None)
+            # The metadata dictionary belongs to this TraitType, which may be
+            # asked for further CTraits: do not remove the entry from it.
+            comparison_mode = metadata.get("comparison_mode", None)
             if comparison_mode is not None:
                 trait.comparison_mode = comparison_mode
 
@@ -478,6 +480,7 @@ class TraitType(BaseTraitHandler):
         trait.handler = self
 
         trait.__dict__ = metadata.copy()
+        trait.__dict__.pop("comparison_mode", None)
 
         return trait
 
